@@ -384,7 +384,7 @@ func (t *terminal) handleCmdCSI(r escapeReader) bool {
 
 		case 'c': // Send Device Attributes
 			if paramCount == 0 {
-				paramStore[0] = 1
+				paramStore[0] = 0
 				paramCount = 1
 				params = paramStore[:paramCount]
 			}
